@@ -135,6 +135,20 @@ def note_label(label):
     _labels.append(label)
 
 
+_counts = {}
+
+
+def note_count(name, n=1):
+    """Accumulate a per-case counter (e.g. number of fault-injected executions inside one scenario)."""
+    _counts[name] = _counts.get(name, 0) + int(n)
+
+
+def take_counts():
+    out = dict(_counts)
+    _counts.clear()
+    return out
+
+
 def take_labels():
     out = list(_labels)
     del _labels[:]
